@@ -99,3 +99,8 @@ EDITS += [
     {'id': 'no-flags-for-empty-record', 'expect': 'no-alarm', 'file': 'spowtd/classify.py',
      'old': '    del is_raining\n', 'new': '    del is_raining\n    if len(interval_mask) == 0:\n        return\n'},
 ]
+
+# round 8 (hardening that is not)
+EDITS += [
+    {'id': 'r8-flags-upserted', 'expect': 'fire', 'rule': 'C04.O4', 'file': 'spowtd/classify.py', 'old': 'INSERT INTO grid_time_flags', 'new': 'INSERT OR REPLACE INTO grid_time_flags'},
+]
